@@ -260,6 +260,23 @@ def check_model(led, model, pdC, pdT):
 
 def _job(led, j):
     check_model(led, *j)
+    fails = [kw for name, a, kw in getattr(led, 'calls', []) if name == 'fail' and kw.get('replay') is None and 'calc_fext' in a[0]]
+    if not fails:
+        return
+    from .. import pyreplay, shell_oracle as O
+    model, pdC, pdT = j
+    pay = dict(m1=2, m2=2, n2=2, r2=250., H=500., alphadeg=15., laminaprop=[123.55e3, 8.708e3, 0.319, 5.695e3, 5.695e3, 5.695e3],
+               stack=[30, -30, 45], plyt=0.125, model=model, pdC=pdC, pdT=pdT, T=1000., P=(0. if 'fsdt' in model else 0.05),
+               Nxxtop=[10., 1., 2., 3., 4.], forces=[[100., 30., 1., 2., 3.]])
+    if model.startswith('iso_'):
+        pay['iso'] = [71e3, 0.33, 2.]
+    try:
+        r = pyreplay.run_real(O.FEXT, pay)
+        rep = {'reproduced': bool(r.get('n_mismatch')), 'input': pay, 'result': r, 'real_function': 'ConeCyl.calc_fext vs quadrature of the work on fg'}
+    except Exception as e:
+        rep = {'reproduced': False, 'replay_error': repr(e)}
+    for kw in fails:
+        kw['replay'] = rep
 
 
 def check(led):
